@@ -535,6 +535,11 @@ fn run_box_word(ctx: &Ctx, pw: f32, vw: f32, init: &Universal2DBox, word: &[usiz
             viol(ctx, "box/spd", format!("step {k}: {e}"), cfg, &word[..=k]);
             return;
         }
+        // the named accessors of the state read the components they name
+        if st.mean_pos_xc() as f64 != post.mean[0] || st.mean_pos_yc() as f64 != post.mean[1] || st.mean_vel_xc() as f64 != post.mean[5] || st.mean_vel_yc() as f64 != post.mean[6] {
+            viol(ctx, "box/state-accessors", format!("step {k}: pos ({}, {}) vel ({}, {}) against mean {:?}", st.mean_pos_xc(), st.mean_pos_yc(), st.mean_vel_xc(), st.mean_vel_yc(), post.mean), cfg, &word[..=k]);
+            return;
+        }
     }
 }
 
